@@ -101,7 +101,8 @@ OnEv(e) ==
           /\ IF e.kind = "bcast"
              \* a broadcast (resource updated) reaches every subscribed session; for each receiver it is a
              \* message issued outside any of its requests
-             THEN Check(l, "C10.NestedOnStandalone", Standalone(xr))
+             \* (the issuing session may also get it on the issuing request's stream)
+             THEN Check(l, "C10.NestedOnStandalone", Standalone(xr) \/ (e.os = xr.s /\ e.or \in ReqsOf(xr)))
              ELSE IF e.kind = "resp"
              THEN Check(l, "C10.ResponseOnOwnExchange", e.os = xr.s /\ e.or \in ReqsOf(xr))
              ELSE IF e.or = "sa" \/ m.json
